@@ -367,9 +367,16 @@ def backend(E):
             G.scalar(0.5) @ G.Ket(0, 0) >> G.H @ G.H >> Measure(2)
             >> G.Match(),
             G.Ket(0) >> G.H >> Measure(1, destructive=False)
-            >> G.Rx(0.25) @ Id(bit) >> Measure() @ Id(bit)]
+            >> G.Rx(0.25) @ Id(bit) >> Measure() @ Id(bit),
+            G.Ket(0) >> G.H >> G.S >> G.H >> Measure(),
+            G.Ket(0) >> G.H >> G.S.dagger() >> G.Rx(0.25) >> Measure(),
+            G.Ket(0) >> G.H >> G.T.dagger() >> G.H >> Measure()]
     c = E.choice('circuit', pool)
-    t = c.to_tk()
+    try:
+        t = c.to_tk()
+    except NotImplementedError:
+        E.cover("refused")
+        return
     dist = simulate(t)
     nb = len(t.bits)
     counts = {bits: float(sympy.N(p)) for bits, p in dist.items()
@@ -383,10 +390,22 @@ def backend(E):
     cnt = c.get_counts(mockBackend(counts))
     loc = c.get_counts()
     keys = set(cnt) | set(loc)
+    key = "C13:backend:get_counts-differs"
+    if len(t.post_processing.boxes):
+        key += ":with-post-processing"
     E.check(all(abs(cnt.get(k, 0) - float(np.asarray(loc.get(k, 0)).flatten()[0]))
-                < 1e-9 for k in keys) if not len(t.post_processing.boxes)
-            else True, "C13:backend:get_counts-differs",
-            info="%s vs %s" % (cnt, loc))
+                < 1e-9 for k in keys), key, info="%s vs %s" % (cnt, loc))
+    # two circuits in one batch: each is scaled by its own scalar
+    other = G.scalar(0.5) @ G.Ket(0) >> G.H >> Measure()
+    t2 = other.to_tk()
+    counts2 = {b: float(sympy.N(p_)) for b, p_ in simulate(t2).items()
+               if abs(float(sympy.N(p_))) > 1e-12}
+    both = c.get_counts(other, backend=mockBackend(counts, counts2))
+    alone = other.get_counts(mockBackend(counts2))
+    E.check(all(abs(both[1].get(k, 0) - alone.get(k, 0)) < 1e-9
+                for k in set(both[1]) | set(alone)),
+            "C13:backend:batched-counts-use-wrong-scalar",
+            info="%s vs %s" % (both[1], alone))
     E.cover("backend")
 
 
@@ -411,6 +430,10 @@ def harnesses(tier):
           "{H,X,Y,S,T,Rx,Rz,CX,CZ,SWAP,CRz (symbolic angles),Measure} on all "
           "qubit pairs" % (2 if q else 3), timeout_s=T,
           solver_timeout_ms=20000),
+        H("imports4", imports, dict(nq=4, depth=1, symbolic=False, small=True),
+          FUNCS, covers=["imported"], engine="numeric cross-check",
+          bounds="raw tket circuits on 4 qubits with one two-qubit gate "
+          "(CX, CZ, CRz) on every ordered pair, concrete angle", timeout_s=T),
         H("imports3", imports, dict(nq=3, depth=2, symbolic=False, small=q),
           FUNCS,
           covers=["imported"], engine="numeric cross-check (3-qubit mixed "
@@ -421,7 +444,7 @@ def harnesses(tier):
         H("backend", backend, {}, FUNCS, covers=["backend"],
           engine="numeric cross-check with a stub backend returning the exact "
           "distribution of the reference semantics",
-          bounds="7 concrete circuits", stubs=["stub backend: "
+          bounds="10 concrete circuits", stubs=["stub backend: "
                                                "process_circuits -> handles, get_result(h).get_counts() -> dict"],
           timeout_s=T)]
     if not q:
